@@ -27,9 +27,9 @@ func rulesC13(c *Ctx) {
 	g := loop.Graph()
 	errIs := c.Std("errors", "", "Is")
 	eMNF := c.Obj(pJ, "ErrMethodNotFound")
-	thr := sk.Param("failureThreshold")
-	interval := sk.Param("interval")
-	session := sk.Param("session")
+	thr := sk.ParamWhere(func(t types.Type) bool { b, ok := t.(*types.Basic); return ok && b.Kind() == types.Int })
+	interval := sk.ParamWhere(func(t types.Type) bool { return isNamedType(t, "time", "Duration") })
+	session := sk.ParamOfNamed(pM, "keepaliveSession")
 	c.Need(thr != nil && interval != nil && session != nil, "startKeepalive parameters")
 	// the Ping and Close calls on the session parameter
 	var pingV, closeV = -1, -1
@@ -259,7 +259,11 @@ func rulesC13(c *Ctx) {
 
 	c.Rule("R-C13-3", "wiring: the cancel function is published before the goroutine starts; keep-alive runs only when configured; Close cancels it", func() {
 		sg := sk.Graph()
-		cp := sk.Param("cancelPtr")
+		cp := sk.ParamWhere(func(t types.Type) bool {
+			pt, ok := t.(*types.Pointer)
+			return ok && isNamedType(pt.Elem(), "context", "CancelFunc")
+		})
+		c.Need(cp != nil, "startKeepalive: *context.CancelFunc parameter")
 		okPub := false
 		for _, w := range Writes(sk.Body, false) {
 			if st, ok := ast.Unparen(w.LHS).(*ast.StarExpr); ok && sk.ObjOf(st.X) == types.Object(cp) {
@@ -352,7 +356,10 @@ func rulesC14(c *Ctx) {
 	}
 	// tokenInfo / err variables of the verifier call
 	var tokVar, errVar types.Object
-	verifierParam := v.Param("verifier")
+	verifierParam := v.ParamOfNamed(pA, "TokenVerifier")
+	optsParam := v.ParamOfNamed(pA, "RequireBearerTokenOptions")
+	fieldsVar := v.VarFromCall(c.Std("strings", "", "Fields"), 0)
+	c.Need(verifierParam != nil && optsParam != nil && fieldsVar != nil, "verify: verifier/options parameters and the split Authorization header")
 	var verifierV = -1
 	for _, w := range Writes(v.Body, false) {
 		if as, ok := w.Stmt.(*ast.AssignStmt); ok && len(as.Lhs) == 2 && len(as.Rhs) == 1 {
@@ -396,9 +403,9 @@ func rulesC14(c *Ctx) {
 	}
 
 	c.Rule("R-C14-1", "admission implies every check: with any single check failing, the admitting return is unreachable and only the cause's status is returned (reject table of R-C14-2 included)", func() {
-		hdrOK := []leafMatcher{cmpIs("len(fields)", token.NEQ, triFalse), cmpIs("ToLower", token.NEQ, triFalse)}
-		scenario("verify:malformed-authorization", anyOf(cmpIs("len(fields)", token.NEQ, triTrue))(v), []int64{401}, "Authorization does not have exactly two fields")
-		scenario("verify:scheme-not-bearer", anyOf(cmpIs("len(fields)", token.NEQ, triFalse), cmpIs("ToLower", token.NEQ, triTrue))(v), []int64{401}, "scheme is not Bearer")
+		hdrOK := []leafMatcher{lenCmpObj(fieldsVar, token.NEQ, triFalse), cmpIs("ToLower", token.NEQ, triFalse)}
+		scenario("verify:malformed-authorization", anyOf(lenCmpObj(fieldsVar, token.NEQ, triTrue))(v), []int64{401}, "Authorization does not have exactly two fields")
+		scenario("verify:scheme-not-bearer", anyOf(lenCmpObj(fieldsVar, token.NEQ, triFalse), cmpIs("ToLower", token.NEQ, triTrue))(v), []int64{401}, "scheme is not Bearer")
 		scenario("verify:invalid-token", anyOf(append(hdrOK, errM(triFalse), isErr("ErrInvalidToken", triTrue))...)(v), []int64{401}, "verifier says ErrInvalidToken")
 		scenario("verify:oauth-error", anyOf(append(hdrOK, errM(triFalse), isErr("ErrInvalidToken", triFalse), isErr("ErrOAuth", triTrue))...)(v), []int64{400}, "verifier says ErrOAuth")
 		scenario("verify:other-verifier-error", anyOf(append(hdrOK, errM(triFalse), isErr("ErrInvalidToken", triFalse), isErr("ErrOAuth", triFalse))...)(v), []int64{500}, "verifier fails otherwise")
@@ -416,7 +423,7 @@ func rulesC14(c *Ctx) {
 					if add, ok := ast.Unparen(recv).(*ast.CallExpr); ok && v.Callee(add) != nil && v.Callee(add).Name() == "Add" && len(add.Args) == 1 {
 						s, isS := ast.Unparen(add.Args[0]).(*ast.SelectorExpr)
 						base, isB := ast.Unparen(add.Fun).(*ast.SelectorExpr)
-						if isS && s.Sel.Name == "ClockSkew" && isB && exprStr(base.X) == tokVar.Name()+".Expiration" {
+						if isS && s.Sel.Name == "ClockSkew" && isB && func() bool { nm, on := v.SelectorOn(base.X, tokVar); return on && nm == "Expiration" }() {
 							okForm = true
 						}
 					}
@@ -432,7 +439,7 @@ func rulesC14(c *Ctx) {
 				return
 			}
 			s, isS := ast.Unparen(rs.X).(*ast.SelectorExpr)
-			if !isS || s.Sel.Name != "Scopes" || v.ObjOf(s.X) != types.Object(v.Param("opts")) {
+			if !isS || s.Sel.Name != "Scopes" || v.ObjOf(s.X) != types.Object(optsParam) {
 				return
 			}
 			// body: if !Contains(tokenInfo.Scopes, s) { return 403 }
@@ -454,7 +461,7 @@ func rulesC14(c *Ctx) {
 					if r, isR := b.(*ast.ReturnStmt); isR && codeOf(r) == 403 {
 						// the loop is on every path to admission on which opts != nil
 						rv := g.VertexOf(rs.X)
-						seen := g.ReachUnder(anyOf(nilTestOf("opts", triFalse))(v), func(u int) bool { return u == rv })
+						seen := g.ReachUnder(anyOf(nilObj(optsParam, triFalse))(v), func(u int) bool { return u == rv })
 						okScope = !seen[av] && g.ReachableFrom(verifierV)[rv]
 					}
 				}
@@ -468,7 +475,7 @@ func rulesC14(c *Ctx) {
 		for _, call := range v.AllCalls(v.Body, false) {
 			if v.ObjOf(call.Fun) == types.Object(verifierParam) && len(call.Args) == 3 {
 				if ix, ok := ast.Unparen(call.Args[1]).(*ast.IndexExpr); ok {
-					if k, isC := v.ConstInt(ix.Index); isC && k == 1 && exprStr(ix.X) == "fields" {
+					if k, isC := v.ConstInt(ix.Index); isC && k == 1 && v.ObjOf(ix.X) == fieldsVar {
 						okTok = true
 					}
 				}
@@ -553,7 +560,7 @@ func rulesC14(c *Ctx) {
 		ast.Inspect(hl.Body, func(x ast.Node) bool {
 			if ce, ok := x.(*ast.CallExpr); ok && hl.Callee(ce) != nil && hl.Callee(ce).FullName() == "fmt.Sprintf" && len(ce.Args) == 2 {
 				if f, ok := hl.ConstString(ce.Args[0]); ok {
-					if f == "resource_metadata=%q" && exprStr(ce.Args[1]) == "opts.ResourceMetadataURL" {
+					if f == "resource_metadata=%q" && hl.FieldPath(ce.Args[1]) == "RequireBearerTokenOptions.ResourceMetadataURL" {
 						src["resource_metadata"] = true
 					}
 					if f == "scope=%q" {
